@@ -58,3 +58,86 @@ Theorem C17_iteration_state_depends_on_path_only :
   forall p pa pa', ex_set_path (init_exec p pa) pa' = init_exec p pa'.
 Proof. exact init_exec_depends_on_path_only. Qed.
 Print Assumptions C17_iteration_state_depends_on_path_only.
+
+(* ==== appended by tools/mkprops.py (APPEND table) ==== *)
+
+Require Import LV.Base LV.VV LV.VVFacts LV.Path LV.PathSpec LV.PathTerm LV.PathDistinct LV.PathApi LV.Prog LV.Objects LV.Exec LV.Atomic LV.Ops LV.Check LV.SyncFacts LV.ExecFacts LV.SyncMono LV.TlsFacts.
+
+(* Global bookkeeping invariants over whole runs of the model (TlsFacts.v) *)
+(* EXACT: in every run, the number of initialisations of key k logged for body b equals the number of threads of body b that have k initialised *)
+Theorem C17_run_tls_count :
+  forall (fuel : nat) (p : prog) (pa : path) (k b : nat),
+       cnt_tls k b (e_log (fst (run fuel (init_exec p pa)))) =
+       length
+         (filter (fun t : thread => (t_body t =? b) && existsb (Nat.eqb k) (t_tls t))
+            (e_threads (fst (run fuel (init_exec p pa))))).
+Proof. exact run_tls_count. Qed.
+Print Assumptions C17_run_tls_count.
+
+(* hence at most one initialisation per thread and key (threads identified by body: the side condition says no body is spawned twice) *)
+Theorem C17_tls_init_once :
+  forall (fuel : nat) (p : prog) (pa : path) (k b : nat),
+       let e := fst (run fuel (init_exec p pa)) in
+       NoDup (map t_body (e_threads e)) -> cnt_tls k b (e_log e) <= 1.
+Proof. exact tls_init_once. Qed.
+Print Assumptions C17_tls_init_once.
+
+(* a thread's set of initialised keys has no duplicates *)
+Theorem C17_run_tls_nodup :
+  forall (fuel : nat) (p : prog) (pa : path) (t : thread),
+       In t (e_threads (fst (run fuel (init_exec p pa)))) -> NoDup (t_tls t).
+Proof. exact run_tls_nodup. Qed.
+Print Assumptions C17_run_tls_nodup.
+
+(* a lazy static is initialised at most once per execution, in every run of every program *)
+Theorem C17_lazy_init_once :
+  forall (fuel : nat) (p : prog) (pa : path) (k : nat),
+       cnt_lazy k (e_log (fst (run fuel (init_exec p pa)))) <= 1.
+Proof. exact lazy_init_once. Qed.
+Print Assumptions C17_lazy_init_once.
+
+(* after the shutdown at main's exit the registry stays shut under every micro-step *)
+Theorem C17_lazy_none_stays :
+  forall (e : exec) (me : nat) (m : micro),
+       e_lazy e = None -> e_lazy (res_exec (exec_micro e me m)) = None.
+Proof. exact lazy_none_stays. Qed.
+Print Assumptions C17_lazy_none_stays.
+
+(* and every later access fails with loom's shutdown panic *)
+Theorem C17_lazy_get_after_shutdown :
+  forall (e e' : exec) (b k : nat),
+       steps e e' ->
+       e_lazy e = None ->
+       exec_micro e' b (MLazyGet k) = MFail e' PanicLazyShutdown /\
+       (forall rest : list micro,
+        exec_micro (upd_thread e' b (fun t : thread => th_set_cont t rest)) b (MLazyGet k) =
+        MFail (upd_thread e' b (fun t : thread => th_set_cont t rest)) PanicLazyShutdown).
+Proof. exact lazy_get_after_shutdown. Qed.
+Print Assumptions C17_lazy_get_after_shutdown.
+
+(* an access to a registered lazy static acquires the view registered by its initialiser *)
+Theorem C17_lazy_get_acquires :
+  forall (e : exec) (me k : nat) (lz : list (nat * (nat * vv))) (ci : nat) 
+         (sy : vv) (e' : exec),
+       e_lazy e = Some lz ->
+       NoDup (map fst lz) ->
+       In (k, (ci, sy)) lz ->
+       me < length (e_threads e) -> exec_micro e me (MLazyGet k) = MOk e' -> vle sy (caus_of e' me).
+Proof. exact lazy_get_acquires. Qed.
+Print Assumptions C17_lazy_get_acquires.
+
+(* GLOBAL: initialisation happens-before every later successful access, whatever happens in between *)
+Theorem C17_lazy_handover_global :
+  forall (e : exec) (a k : nat) (lz : list (nat * (nat * vv))) (e1 e2 e2' : exec) 
+         (b : nat) (e3 : exec),
+       tl_inv e ->
+       e_lazy e = Some lz ->
+       ~ In k (map fst lz) ->
+       exec_micro e a (MLazyGet k) = MOk e1 ->
+       steps e1 e2 ->
+       e_lazy e2' = e_lazy e2 ->
+       b < length (e_threads e2') ->
+       exec_micro e2' b (MLazyGet k) = MOk e3 -> vle (caus_of e a) (caus_of e3 b).
+Proof. exact lazy_handover_global. Qed.
+Print Assumptions C17_lazy_handover_global.
+
